@@ -19,6 +19,8 @@ pub mod c08;
 pub mod c09;
 pub mod c10;
 pub mod c11;
+pub mod c13;
+pub mod c14;
 
 pub fn scenarios(prop: &str, tier: Tier) -> Vec<Scenario> {
     match prop {
@@ -33,6 +35,8 @@ pub fn scenarios(prop: &str, tier: Tier) -> Vec<Scenario> {
         "C09" => c09::scenarios(tier),
         "C10" => c10::scenarios(tier),
         "C11" => c11::scenarios(tier),
+        "C13" => c13::scenarios(tier),
+        "C14" => c14::scenarios(tier),
         _ => vec![],
     }
 }
